@@ -1221,6 +1221,31 @@ def lower14(ctx) -> List[Ob]:
 # ------------------------------------------------------------------ LOWER-15
 
 
+_ARITY_PROPS: dict = {}
+
+
+def _load_arity_props(ctx) -> None:
+    """return expressions of `fallthrough` / `is_exiting` as PythonASTBlock inherits or overrides them"""
+    _ARITY_PROPS.clear()
+    c = ctx.prog.classes.get("PythonASTBlock")
+    if c is None:
+        return
+    for nm in ("fallthrough", "is_exiting"):
+        m = c.find_method(nm)
+        if m is None:
+            continue
+        from .common import expanded_function as _xf
+
+        body = A.body_without_docstring(_xf(m))  # locals that merely name self.backedges etc. are read through
+        body = [b_ for b_ in body if not (isinstance(b_, ast.Assign) and len(b_.targets) == 1 and isinstance(b_.targets[0], ast.Name) and not any(isinstance(x, ast.Name) and x.id == b_.targets[0].id and isinstance(x.ctx, ast.Load) for r_ in body for x in ast.walk(r_)))]
+        if len(body) == 1 and isinstance(body[0], ast.Return) and body[0].value is not None:
+            v_ = body[0].value
+            # `not self.jump_targets` and friends are evaluated by _eval_arity itself
+            _ARITY_PROPS[nm] = v_
+        else:
+            _ARITY_PROPS[nm] = ast.Name(id="<unknown>", ctx=ast.Load())
+
+
 def _eval_arity(test: ast.AST, subj: str, r: int, v: int):
     """three-valued evaluation of a code-generator arm test for a block with r raw and v visible successors"""
     t = A.unparse(test)
@@ -1232,12 +1257,28 @@ def _eval_arity(test: ast.AST, subj: str, r: int, v: int):
     if isinstance(test, ast.UnaryOp) and isinstance(test.op, ast.Not):
         x = _eval_arity(test.operand, subj, r, v)
         return None if x is None else (not x)
-    if t == f"{subj}.fallthrough":
-        return r == 1
-    if t == f"{subj}.is_exiting":
-        return v == 0
+    if t in (f"{subj}.fallthrough", f"{subj}.is_exiting"):
+        # the property as the class of source blocks defines it (an override in PythonASTBlock counts), evaluated
+        # on the same arities; the audited meaning when the definition is not a single evaluable return
+        pd = _ARITY_PROPS.get(t.split(".")[-1])
+        if pd is not None:
+            x = _eval_arity(pd, "self", r, v)
+            if x is not None:
+                return x
+            return None
+        return (r == 1) if t.endswith(".fallthrough") else (v == 0)
     if t in (f"{subj}.jump_targets", f"{subj}._jump_targets"):
         return (v if "._" not in t else r) > 0
+    # all(j in S.backedges for j in S._jump_targets): no visible successor;  any(j not in S.backedges for ..): some
+    if isinstance(test, ast.Call) and isinstance(test.func, ast.Name) and test.func.id in ("all", "any") and len(test.args) == 1 and isinstance(test.args[0], (ast.GeneratorExp, ast.ListComp)) and len(test.args[0].generators) == 1:
+        g_ = test.args[0].generators[0]
+        el = test.args[0].elt
+        if not g_.ifs and A.unparse(g_.iter) == f"{subj}._jump_targets" and isinstance(g_.target, ast.Name) and isinstance(el, ast.Compare) and len(el.ops) == 1 \
+                and A.unparse(el.left) == g_.target.id and A.unparse(el.comparators[0]) == f"{subj}.backedges":
+            if test.func.id == "all" and isinstance(el.ops[0], ast.In):
+                return v == 0
+            if test.func.id == "any" and isinstance(el.ops[0], ast.NotIn):
+                return v > 0
     if t == f"{subj}.backedges":
         return r != v
     if isinstance(test, ast.Compare) and len(test.ops) == 1 and isinstance(test.comparators[0], ast.Constant) and isinstance(test.comparators[0].value, int):
@@ -1277,6 +1318,7 @@ def lower15(ctx) -> List[Ob]:
         out.append(unresolved("LOWER-15", fn.qualname, "source-block arms", ctx.where(fn), "the arm chain for PythonASTBlock was not found in the code generator"))
         return out
     arms = chain_arms(first_if)
+    _load_arity_props(ctx)
     for (r, v) in ((0, 0), (1, 1), (1, 0), (2, 2), (2, 1)):
         key = f"block with {r} raw / {v} visible successors"
         reached = []
